@@ -17,3 +17,6 @@ import FpgoVerif.Props.C11
 #print axioms FpgoVerif.C11.C11_yieldFromIO
 #print axioms FpgoVerif.C11.C11_model_refines_spec
 #print axioms FpgoVerif.C11.C11_skeleton
+#print axioms FpgoVerif.C11.C11_derive_independent
+#print axioms FpgoVerif.C11.C11_subscribe_split
+#print axioms FpgoVerif.C11.C11_gated_delivery
